@@ -197,12 +197,17 @@ func (u *Unit) loopEnter(st *State, lp *Loop) {
 		st.cnt[cn] = nv
 		if ev.Key != nil {
 			ck := "cntk!" + ev.Name
+			var nk T
 			if curk, ok := st.cnt[ck]; ok {
-				st.cnt[ck] = u.fresh("loop."+ck, curk.Sort)
+				nk = u.fresh("loop."+ck, curk.Sort)
+				ks, _ := arrParts(curk.Sort)
+				st.assume(T{fmt.Sprintf("(forall ((x!q %s)) (! (<= (select %s x!q) (select %s x!q)) :pattern ((select %s x!q))))", ks, curk.S, nk.S, nk.S), SBool})
 			} else {
 				// the keyed counter array starts as all-zero before the loop
-				st.cnt[ck] = u.fresh("loop."+ck, ArrSort(SInt, SInt))
+				nk = u.fresh("loop."+ck, ArrSort(SInt, SInt))
+				st.assume(T{fmt.Sprintf("(forall ((x!q Int)) (! (<= 0 (select %s x!q)) :pattern ((select %s x!q))))", nk.S, nk.S), SBool})
 			}
+			st.cnt[ck] = nk
 		}
 		delete(st.lastArgs, ev.Name)
 		if ev.Record {
